@@ -479,17 +479,17 @@ def run(eng, rep):
     rep.explain("Also decided: the re-selection after a re-sample is guarded only by 'not all NaN' and lies on every path to a normal exit (C17-4b); the saved record never aliases live arrays (C17-6); extra samples go to the slot of their point (C17-7); append helpers are recognised structurally.")
     rep.explain("The running-mean update of a re-sampled residual equals (n*old + new)/(n+1) as a rational function, with each read of the sample count placed before or after its increment (C17-8, sympy.cancel as normaliser).")
     rep.not_decided += ["rounding error of the running mean (the identity is decided over the rationals)"]
-    rule_parallel_arrays(eng, rep)
+    rep.guarded(rule_parallel_arrays, eng, rep)
     A = anchors(eng)
-    rule_objective_construction(eng, rep, A)
-    rule_sample_counts(eng, rep)
-    rule_selection(eng, rep, "C17-4.incumbent-and-final-selection-tables", {"ORDER", "NAN_CAND", "NAN_HOLDER", "NONE_HOLDER"}, "C17")
-    rule_kopt_valid(eng, rep)
-    rule_reselection_guard(eng, rep)
-    rule_running_mean(eng, rep)
+    rep.guarded(rule_objective_construction, eng, rep, A)
+    rep.guarded(rule_sample_counts, eng, rep)
+    rep.guarded(rule_selection, eng, rep, "C17-4.incumbent-and-final-selection-tables", {"ORDER", "NAN_CAND", "NAN_HOLDER", "NONE_HOLDER"}, "C17")
+    rep.guarded(rule_kopt_valid, eng, rep)
+    rep.guarded(rule_reselection_guard, eng, rep)
+    rep.guarded(rule_running_mean, eng, rep)
     from .records import rule_snapshots_are_copies
     from .c03 import rule_extra_samples_same_slot
-    rule_extra_samples_same_slot(eng, rep, rule="C17-7.extra-samples-go-to-the-slot-of-their-point")
+    rep.guarded(rule_extra_samples_same_slot, eng, rep, rule="C17-7.extra-samples-go-to-the-slot-of-their-point")
     # ('evaluation numbers travel with their points' at the call sites of the stores is decided by C03-3 and not repeated here: it would only duplicate
     #  the four recorded findings of the parallel initialisers under a second property)
-    rule_snapshots_are_copies(eng, rep, "C17-6.saved-record-does-not-alias-live-arrays", [("f", "Model", f) for f in ("xsave", "rsave", "jacsave", "jacsave_eval_nums")], "the saved-point slot")
+    rep.guarded(rule_snapshots_are_copies, eng, rep, "C17-6.saved-record-does-not-alias-live-arrays", [("f", "Model", f) for f in ("xsave", "rsave", "jacsave", "jacsave_eval_nums")], "the saved-point slot")
